@@ -123,6 +123,7 @@ type Exec struct {
 	sendOrd   map[*ast.SendStmt]int
 	sendCnt   map[string]int
 	anchorCnt map[string]int
+	lostInvs   map[string]bool // loop invariants that could not be read against the current body
 	anchorsHit map[string]bool // call anchors (before@/after@) that matched at least one call site
 	litEscapes bool // some function literal of this function may be retained and invoked later
 }
